@@ -6,7 +6,10 @@ Space: (order, coefficient vector) x (sim_mean, sim_ini) x series, each tuple ru
   C  r = residual(phi, x)           vs the inverse recursion in Fractions; 0 at NaN inputs
   D  sim(phi, residual(phi, x))     = x at the non-NaN positions (same mean / ini)
 plus long seed-rotated series (mpmath reference) and the rejected calls
-(order 0 / 11 / 12, NaN coefficient at every position, NaN mean, NaN initial value).
+(order 0 / 11 / 12, NaN coefficient at every position, NaN mean, NaN initial value),
+a series-length ladder around powers of two (orders 1, 2, 5, 10, same Fraction recursion)
+and input-layout variants of params / innov / inputs (differential against the float64
+C-contiguous call).
 """
 import itertools, math
 from fractions import Fraction
@@ -21,7 +24,14 @@ RULE = ("nested enumeration, each tuple once: order 1..10 x coefficient vector o
         "Fraction recursion; residual(sim(e)) = e; residual vs the Fraction inverse recursion (0 at NaN inputs); "
         "sim(residual(x)) = x off the NaN positions. Long series (2000/5000, seed-rotated values, dense coefficients "
         "with sum|phi| < 1) against a 50-digit mpmath recursion. Every rejected call (order 0/11/12, NaN coefficient "
-        "at each position of each order, NaN mean, NaN ini) for both functions. Non-trivial = series length >= 1 and "
+        "at each position of each order, NaN mean, NaN ini) for both functions. Size ladder: orders 1, 2, 5, 10 x 2 coefficient "
+        "vectors (dense 2^-k with mixed signs; only the highest lag = +-0.75) x 2 (mean, ini) x 3 structured series (dyadic "
+        "with NaN in the first steps / middle / end; integer-valued; values with 34 significant bits) x every length of "
+        "7,8,9,...,1023,1024,1025 (thorough: ..4097 and 10001), the same four calls against the same Fraction recursion "
+        "(mpmath beyond 4097). Layout variants (every ladder tuple, the first tuple of every grid/long unit): the same "
+        "values as float32 / int64 (when exactly representable) / strided / negative-stride / 2-D column / read-only "
+        "series and float32 / int64 / strided / read-only / list parameter vectors must give the result of the float64 "
+        "C-contiguous call. Non-trivial = series length >= 1 and "
         "(ini != mean or some value != 0), i.e. the lag buffer carries information. Distinct by construction.")
 ASSUMPTIONS = [
     "dyadic alphabets: the Fraction recursion is exact, the float kernels are exact or within a few ulp; tolerance 1e-9 x max(1, largest |expected value| of the series)",
@@ -31,6 +41,8 @@ ASSUMPTIONS = [
     "the round trips use the same explicit mean and initial value on both sides; length 0 only with an explicit mean",
     "rejection = any exception; +-inf coefficients/values, 2-D inputs and non-float dtypes are outside the property text and not enumerated",
     "c_hydrodiy_stat is rebuilt from the working tree c_armodels.c; the Cython wrapper C file is not re-translated",
+    "size ladder: the Fraction recursion stays exact for every float64 input (denominators grow by <= 10 bits a step), lengths <= 4097; length 10001 uses the 50-digit mpmath recursion; tolerance unchanged (1e-9 x scale: sum|phi| < 1 so rounding noise does not grow with n, observed < 1e-15)",
+    "layout variants hold the same values (float32 / int64 only when every value converts exactly); a layout rejected with a Python exception is accepted and counted; the result must agree with the float64 C-contiguous call within the check's tolerance (observed: bitwise equal). Exception: float32 inputs with sim_mean=None, where numpy.nanmean is evaluated in float32 (documented numpy behaviour, relative error <= 6e-8): tolerance 1e-5 x scale there",
 ]
 TECHNIQUE = "bounded exhaustive enumeration on the real kernels vs an exact Fraction (short) / 50-digit mpmath (long) AR recursion, plus inverse-direction relations"
 
@@ -46,16 +58,27 @@ MI_Q2 = [(None, None), (1.5, -2.0)]
 MI_T6 = [(None, None), (1.5, -2.0), (-2.0, None), (None, 1.5), (0.0, -2.0), (-2.0, 1.5)]
 MISETS = {"all": MI_ALL, "q2": MI_Q2, "t6": MI_T6}
 
+LADDER_Q = [7, 8, 9, 15, 16, 17, 31, 32, 33, 63, 64, 65, 100, 127, 128, 129, 255, 256, 257, 500, 501, 511, 512, 513,
+            1000, 1001, 1023, 1024, 1025]
+LADDER_T = LADDER_Q + [2047, 2048, 2049, 4095, 4096, 4097, 10001]
+LADDER_ORDERS = [1, 2, 5, 10]
+LADDER_EXACT_MAX = 4097          # beyond: 50-digit mpmath recursion
+LADDER_SERIES = ["dy", "int", "fine"]
+
 
 def bound_text(tier, seed):
     if tier == "quick":
         return ("order 1-2: all 20 coefficient vectors x 16 (mean, ini) x all series of length 0..4 (781); order 3: all 64 vectors x 16 x "
                 "all series of length 0..3; order 4..10: all 1603 vectors with <= 2 non-zero lags x 2 (mean, ini) x length-12 series within "
-                "1 deviation of a zero and of a ramp base (98); long series length 2000 for every order (seed %d); 66 rejected argument sets x 3 series lengths, scalar-parameter form" % seed)
+                "1 deviation of a zero and of a ramp base (98); long series length 2000 for every order (seed %d); 66 rejected argument sets x 3 series lengths, scalar-parameter form; "
+                "size ladder: orders 1,2,5,10 x 2 coefficient vectors x 2 (mean, ini) x 3 structured series x 29 lengths 7..1025 around powers of two (and 100, 500, 501, 1000, 1001); "
+                "11 layout variants of the arguments on every ladder tuple and on the first tuple of every unit" % seed)
     return ("order 1-3: all 84 coefficient vectors x 16 (mean, ini) x [all series of length 0..4, length 5 and 6 within 2 deviations of two "
             "bases]; order 4..10: all 1603 vectors with <= 2 non-zero lags x 6 (mean, ini) x [all series of length 0..2, length 6 within 1 "
             "deviation, length 12 within 2 deviations of the zero base and 1 of the ramp base, length 23 within 1 deviation of both]; long "
-            "series length 2000 and 5000 for every order (seed %d); 66 rejected argument sets x 3 series lengths, scalar-parameter form" % seed)
+            "series length 2000 and 5000 for every order (seed %d); 66 rejected argument sets x 3 series lengths, scalar-parameter form; "
+            "size ladder: orders 1,2,5,10 x 2 coefficient vectors x 2 (mean, ini) x 3 structured series x 36 lengths 7..4097 around powers of two and 10001; "
+            "11 layout variants of the arguments on every ladder tuple and on the first tuple of every unit" % seed)
 
 
 # ---------------------------------------------------------------------------
@@ -156,6 +179,18 @@ def units(tier, seed):
         for L in ([2000] if quick else [2000, 5000]):
             us.append({"kind": "long", "order": p, "L": L, "seed": seed})
     us.append({"kind": "reject"})
+    # size ladder around powers of two (thresholds of blocked / vectorised / fast paths), chunks of similar cost
+    lad = LADDER_Q if quick else LADDER_T
+    for p in LADDER_ORDERS:
+        chunk, acc = [], 0
+        for n in lad:
+            chunk.append(n)
+            acc += n
+            if acc >= (2500 if quick else 4000):
+                us.append({"kind": "ladder", "order": p, "ns": chunk, "seed": seed})
+                chunk, acc = [], 0
+        if chunk:
+            us.append({"kind": "ladder", "order": p, "ns": chunk, "seed": seed})
     return us
 
 
@@ -419,6 +454,7 @@ def run_grid(unit, ctx, AR):
     for name in SERIES_SETS[unit["series"]]:
         series += list(series_set(name))
     first = True
+    laid = False
     for phi in coefs:
         for mean, ini in mis:
             for x in series:
@@ -429,6 +465,9 @@ def run_grid(unit, ctx, AR):
                     ctx.case(False, n=0, sample={"kind": "grid", "phi": phi, "mean": mean, "ini": ini, "x": [enc(v) for v in x], "exact": True})
                     first = False
                 check_tuple(ctx, AR, phi, mean, ini, x)
+                if not laid and len(x) >= 2:
+                    check_layouts(ctx, AR, phi, mean, ini, x)
+                    laid = True
 
 
 def lcg_series(seed, order, L):
@@ -455,7 +494,162 @@ def run_long(unit, ctx, AR):
     ctx.case(False, n=0, sample={"kind": "long", "order": p, "L": L, "seed": seed})
     for mean, ini in ((1.5, -2.0), (None, None)):
         check_tuple(ctx, AR, phi, mean, ini, x, exact=False, mpm=mpmath)
+    check_layouts(ctx, AR, phi, 1.5, -2.0, x)
     ctx.count("long.series")
+
+
+# ---------------------------------------------------------------------------
+# size ladder and layout variants
+
+def ladder_phis(seed, order):
+    dense = long_phi(seed, order)
+    return [dense, [0.0] * (order - 1) + [-0.75 if dense[-1] > 0 else 0.75]]
+
+
+def ladder_series(kind, L, order):
+    """structured series of length L (>= 7):
+    dy   : dyadic ramp 0.5, 0, 2, -1, ... with NaN inside the first `order` steps, in the middle and at the end
+    int  : integer-valued, NaN-free (1, 0, 4, -2, ...)
+    fine : ramp + (i mod 5) * 2^-33, NaN-free (34 significant bits: exact in float64 and in Fractions, not in float32)"""
+    b = base_series(L, "ramp")
+    if kind == "dy":
+        for i in (min(order - 1, L - 3), L // 2, L - 1):
+            b[i] = NAN
+        return b
+    if kind == "int":
+        return [2.0 * v for v in b]
+    if kind == "fine":
+        return [v + (i % 5) * 2.0 ** -33 for i, v in enumerate(b)]
+    raise ValueError(kind)
+
+
+def nan_equal_close(a, b, tol):
+    a = np.asarray(a, dtype=np.float64)
+    b = np.asarray(b, dtype=np.float64)
+    if a.shape != b.shape:
+        return False
+    na, nb = np.isnan(a), np.isnan(b)
+    if not np.array_equal(na, nb):
+        return False
+    return bool(np.all(np.abs(a[~na] - b[~nb]) <= tol))
+
+
+def series_layouts(xa):
+    """[(name, array holding exactly the values of xa in another dtype / memory layout)]"""
+    L = len(xa)
+    out = []
+    with np.errstate(all="ignore"):
+        f32 = xa.astype(np.float32)
+    if nan_equal_close(f32.astype(np.float64), xa, 0.0):
+        out.append(("float32", f32))
+    if L and not np.any(np.isnan(xa)) and np.all(np.abs(xa) < 2.0 ** 53) and np.all(xa == np.round(xa)):
+        out.append(("int64", xa.astype(np.int64)))
+    big = np.full(2 * L + 1, 7.25)
+    big[1::2] = xa
+    out.append(("strided", big[1::2]))
+    rev = xa[::-1].copy()
+    out.append(("negative-stride", rev[::-1]))
+    m2 = np.full((L, 3), -3.5)
+    m2[:, 1] = xa
+    out.append(("column-of-2d", m2[:, 1]))
+    ro = xa.copy()
+    ro.flags.writeable = False
+    out.append(("read-only", ro))
+    return out
+
+
+def params_layouts(phi):
+    pa = np.array(phi, dtype=np.float64)
+    p = len(pa)
+    out = []
+    f32 = pa.astype(np.float32)
+    if np.array_equal(f32.astype(np.float64), pa):
+        out.append(("params-float32", f32))
+    if np.all(pa == np.round(pa)):
+        out.append(("params-int64", pa.astype(np.int64)))
+    big = np.full(3 * p, 0.125)
+    big[::3] = pa
+    out.append(("params-strided", big[::3]))
+    ro = pa.copy()
+    ro.flags.writeable = False
+    out.append(("params-read-only", ro))
+    out.append(("params-list", [float(v) for v in phi]))
+    return out
+
+
+def check_layouts(ctx, AR, phi, mean, ini, x):
+    """differential: the same values in another dtype / memory layout give the result of the float64 C-contiguous call"""
+    case = {"kind": "layout", "phi": list(phi), "mean": mean, "ini": ini, "x": [enc(v) for v in x]}
+    xa = np.array(x, dtype=np.float64)
+    pa = np.array(phi, dtype=np.float64)
+    fin = [v for v in x if v == v]
+    scale = max([1.0] + [abs(v) for v in fin] + [abs(mean or 0.0), abs(ini or 0.0)])
+    for fname in ("sim", "residual"):
+        fn = AR.armodel_sim if fname == "sim" else AR.armodel_residual
+        if fname == "residual" and mean is None and not fin:
+            continue
+        kw = kwargs_of(mean, ini)
+        try:
+            base = fn(pa.copy(), xa.copy(), **kw)
+        except Exception:
+            ctx.count("layout.base_call_raised")     # reported by check_tuple
+            continue
+        bscale = max([scale] + [abs(float(v)) for v in base if v == v])
+        variants = [(name, pa.copy(), arr) for name, arr in series_layouts(xa)]
+        variants += [(name, par, xa.copy()) for name, par in params_layouts(phi)]
+        for name, par, arr in variants:
+            tol = TOL * bscale
+            if name == "float32" and fname == "residual" and mean is None:
+                tol = 1e-5 * bscale        # numpy.nanmean of a float32 array is evaluated in float32
+            try:
+                r = fn(par, arr, **kw)
+            except Exception as e:
+                ctx.case(True, outcome="raise:" + name)
+                ctx.count("layout.rejected.%s:%s" % (fname, name))
+                continue
+            r = np.asarray(r)
+            ctx.case(True, outcome=r.tobytes())
+            ctx.count("layout.judged.%s" % name)
+            if np.array_equal(np.asarray(r, dtype=np.float64), base, equal_nan=True):
+                ctx.count("layout.bitwise_equal")
+            if r.shape != base.shape or not nan_equal_close(r, base, tol):
+                bad = None
+                if r.shape == base.shape:
+                    d = np.abs(np.asarray(r, dtype=np.float64) - base)
+                    d[np.isnan(d)] = np.inf
+                    d[np.isnan(base) & np.isnan(np.asarray(r, dtype=np.float64))] = 0.0
+                    bad = int(np.argmax(d > tol))
+                ctx.violation("%s:layout=%s" % (fname, name), case,
+                              "armodel_%s with the %s given as %s: %s, the float64 C-contiguous call gives %s" % (
+                                  fname, "parameters" if name.startswith("params") else "series", name,
+                                  "shape %s vs %s" % (r.shape, base.shape) if bad is None else
+                                  "[%d] = %r vs %r" % (bad, float(r[bad]), float(base[bad])), kwargs_of(mean, ini)),
+                              observed=[enc(v) for v in np.asarray(r, dtype=np.float64).ravel()[:50]],
+                              expected=[enc(v) for v in base.ravel()[:50]])
+
+
+def run_ladder(unit, ctx, AR):
+    p, seed = unit["order"], unit["seed"]
+    first = True
+    mpm = None
+    for L in unit["ns"]:
+        exact = L <= LADDER_EXACT_MAX
+        if not exact and mpm is None:
+            import mpmath
+            mpmath.mp.dps = 50
+            mpm = mpmath
+        for phi in ladder_phis(seed, p):
+            for kind in LADDER_SERIES:
+                x = ladder_series(kind, L, p)
+                for mean, ini in ((1.5, -2.0), (None, None)):
+                    if first:
+                        ctx.case(False, n=0, sample={"kind": "ladder", "order": p, "L": L, "phi": phi, "series": kind,
+                                                      "mean": mean, "ini": ini, "exact": exact})
+                        first = False
+                    ctx.count("ladder.tuples")
+                    ctx.count("ladder.n=%d" % L)
+                    check_tuple(ctx, AR, phi, mean, ini, x, exact=exact, mpm=mpm)
+                    check_layouts(ctx, AR, phi, mean, ini, x)
 
 
 def reject_cases():
@@ -530,6 +724,8 @@ def run_unit(unit, ctx):
         run_long(unit, ctx, AR)
     elif k == "reject":
         run_reject(unit, ctx, AR)
+    elif k == "ladder":
+        run_ladder(unit, ctx, AR)
     else:
         raise ValueError("unknown unit kind %r" % k)
 
@@ -550,6 +746,8 @@ def replay(case):
             import mpmath
             mpmath.mp.dps = 50
             check_tuple(ctx, AR, case["phi"], case["mean"], case["ini"], x, exact=False, mpm=mpmath)
+    elif k == "layout":
+        check_layouts(ctx, AR, case["phi"], case["mean"], case["ini"], [dec(v) for v in case["x"]])
     elif k == "reject":
         check_reject(ctx, AR, {kk: v for kk, v in case.items() if kk != "x"})
     elif k == "scalar":
